@@ -43,6 +43,8 @@ pub type Result<T> = core::result::Result<T, SvgdxError>;
 //@item src/element.rs :: struct SvgElement
 //@end
 
+pub assume_specification<T> [std::option::Option::<T>::or] (_0: std::option::Option<T>, _1: std::option::Option<T>) -> (r: std::option::Option<T>)
+    ensures r == (if _0 is Some { _0 } else { _1 });
 pub type M = Map<Seq<char>, Seq<char>>;
 pub open spec fn bx(b: BoundingBox) -> (real, real, real, real) { (val(b.x1), val(b.y1), val(b.x2), val(b.y2)) }
 pub open spec fn len_offset(l: Length, start: real, end: real) -> real {
@@ -325,7 +327,17 @@ impl SvgElement {
 //@ replace-re[R-optmap] <<<self\.attrs\.get\("(\w+)"\)\.map\(\|n\| strp\(n\)\)\.transpose\(\)\?>>> => <<<opt_strp_ref(self.attrs.get("\1"))?>>>
 //@ ensures
 //@ - self.name@ == "circle"@ && r is Ok ==> (match num(self.attrs@, "r"@) { Some(rr) => r->Ok_0 is Some && val(r->Ok_0->Some_0.0) == rr * 2real && val(r->Ok_0->Some_0.1) == rr * 2real,
-//@       None => (r->Ok_0 is Some) == (self.attrs@.dom().contains("width"@) && self.attrs@.dom().contains("height"@)) })     @@C09.size.circle
+//@       None => (r->Ok_0 is Some) == (self.attrs@.dom().contains("width"@) || self.attrs@.dom().contains("height"@)) })     @@C09.size.circle
+//@ - self.name@ == "circle"@ && r is Ok && !self.attrs@.dom().contains("r"@) && self.attrs@.dom().contains("width"@) && !self.attrs@.dom().contains("height"@) ==>
+//@       r->Ok_0 is Some && val(r->Ok_0->Some_0.0) == num(self.attrs@, "width"@)->Some_0 && val(r->Ok_0->Some_0.1) == num(self.attrs@, "width"@)->Some_0     @@C09.size.circle_one_dimension
+//@ - self.name@ == "circle"@ && r is Ok && !self.attrs@.dom().contains("r"@) && self.attrs@.dom().contains("height"@) && !self.attrs@.dom().contains("width"@) ==>
+//@       r->Ok_0 is Some && val(r->Ok_0->Some_0.0) == num(self.attrs@, "height"@)->Some_0 && val(r->Ok_0->Some_0.1) == num(self.attrs@, "height"@)->Some_0     @@C09.size.circle_one_dimension
+//@ - self.name@ == "line"@ && r is Ok && self.attrs@.dom().contains("width"@) && !self.attrs@.dom().contains("height"@)
+//@     && !self.attrs@.dom().contains("x1"@) && !self.attrs@.dom().contains("x2"@) && !self.attrs@.dom().contains("y1"@) && !self.attrs@.dom().contains("y2"@) ==>
+//@       r->Ok_0 is Some && val(r->Ok_0->Some_0.0) == num(self.attrs@, "width"@)->Some_0 && val(r->Ok_0->Some_0.1) == 0real     @@C09.size.line_one_extent
+//@ - self.name@ == "line"@ && r is Ok && self.attrs@.dom().contains("height"@) && !self.attrs@.dom().contains("width"@)
+//@     && !self.attrs@.dom().contains("x1"@) && !self.attrs@.dom().contains("x2"@) && !self.attrs@.dom().contains("y1"@) && !self.attrs@.dom().contains("y2"@) ==>
+//@       r->Ok_0 is Some && val(r->Ok_0->Some_0.0) == 0real && val(r->Ok_0->Some_0.1) == num(self.attrs@, "height"@)->Some_0     @@C09.size.line_one_extent
 //@ - self.name@ == "ellipse"@ && r is Ok && num(self.attrs@, "rx"@) is Some && num(self.attrs@, "ry"@) is Some ==>
 //@       r->Ok_0 is Some && val(r->Ok_0->Some_0.0) == num(self.attrs@, "rx"@)->Some_0 * 2real && val(r->Ok_0->Some_0.1) == num(self.attrs@, "ry"@)->Some_0 * 2real     @@C09.size.ellipse
 //@ - (self.name@ == "point"@ || self.name@ == "text"@) && r is Ok ==> r->Ok_0 is Some && val(r->Ok_0->Some_0.0) == 0real && val(r->Ok_0->Some_0.1) == 0real     @@C09.size.point
